@@ -137,7 +137,7 @@ def ops_for(tf, ch, lazy, L):
     return ops
 
 
-def check_file(t, sname, L, seed, big=False):
+def check_file(t, sname, L, seed, big=False, il=False):
     """-> (n_reads, problems[(kind, op, mode, raw_ts, declared, actual)])"""
     props = SCALINGS.get(sname) or []
     n, chunks = (0, 1) if L == 0 else ((1, 1) if L == 1 else (3, 2))
@@ -149,8 +149,9 @@ def check_file(t, sname, L, seed, big=False):
     else:
         tt = 'TimeStamp' if t == 'TimeStampWhole' else t
         enc = ['FULL', 'String', n, 2 * n + 1] if tt == 'String' else ['FULL', tt, n]
-    comp = (B, F.daqmx_enc(n, [(3, 0, 0, 0, 0)], [8])) if t == 'DAQmx' else (B, ['FULL', 'Int8', 1])
-    hist = [G.seg([(A, enc, props), comp], chunks=chunks, big=big)]
+    comp = (B, F.daqmx_enc(n, [(1, 0, 0, 0, 0)], [8])) if t == 'DAQmx' else (B, ['FULL', 'Int8', n if il else 1])
+    # second segment without the channel: file-level chunk streams must hand out an empty array of the channel's dtype for it
+    hist = [G.seg([(A, enc, props), comp], chunks=chunks, big=big, interleaved=il), G.seg([comp], big=big, interleaved=il)]
     if t == 'TimeStampWhole':   # a log with one sample per second: every fraction is zero
         saved = G.POOLS['TimeStamp']
         G.POOLS['TimeStamp'] = [G._ts(3600000000 + k, 0) for k in range(7)]
@@ -212,9 +213,10 @@ def _worker(item):
     snames = list(SCALINGS) if t in NUMERIC else (['none'] + list(DAQMX_SCALINGS) if t == 'DAQmx' else ['none'])
     seen = set()
     for sname in snames:
-      for big in ((False, True) if sname in ('none', 'Linear', 'AddRawRaw') else (False,)):
+      for big, il in [(b_, i_) for b_ in ((False, True) if sname in ('none', 'Linear', 'AddRawRaw') else (False,))
+                      for i_ in ((False, True) if (t in G.TYPES and G.TYPES[t][1] is not None and sname in ('none', 'Linear')) else (False,))]:
         for L in (0, 1, 6):
-            reads, probs = check_file(t, sname, L, seed, big)
+            reads, probs = check_file(t, sname, L, seed, big, il)
             res['counters']['files'] += 1
             res['counters']['reads'] += reads
             res['counters']['nontrivial'] += 1 if (L or sname != 'none') else 0
@@ -222,14 +224,14 @@ def _worker(item):
             res['outcomes'][oc] = res['outcomes'].get(oc, 0) + 1
             for (kind, op, lazy, raw_ts, declared, actual) in probs:
                 sig = {'kind': kind, 'raw': t, 'scale': sname.split(':')[0], 'declared': declared if isinstance(declared, str) else None,
-                       'actual': actual if isinstance(actual, str) else None, 'big': big}
+                       'actual': actual if isinstance(actual, str) else None, 'big': big, 'interleaved': il}
                 if kind == 'not-an-array':
                     sig['op'] = op
                 k = repr(sorted(sig.items()))
                 if k in seen:
                     continue
                 seen.add(k)
-                res['violations'].append({'case': {'raw': t, 'scale': sname, 'length': L, 'big': big, 'op': op, 'lazy': lazy, 'raw_ts': raw_ts, 'seed': seed},
+                res['violations'].append({'case': {'raw': t, 'scale': sname, 'length': L, 'big': big, 'il': il, 'op': op, 'lazy': lazy, 'raw_ts': raw_ts, 'seed': seed},
                                           'expected': 'dtype %s' % (declared,), 'observed': '%s: %s returned %s' % (kind, op, actual),
                                           'signature': sig})
     res['samples'].append({'raw': t, 'scalings': snames[:4], 'lengths': [0, 1, 6]})
@@ -249,7 +251,7 @@ def run(ctx):
 
 
 def replay(case):
-    reads, probs = check_file(case['raw'], case['scale'], case['length'], case.get('seed', 0), case.get('big', False))
+    reads, probs = check_file(case['raw'], case['scale'], case['length'], case.get('seed', 0), case.get('big', False), case.get('il', False))
     for (kind, op, lazy, raw_ts, declared, actual) in probs:
         if op == case['op'] and lazy == case['lazy'] and raw_ts == case['raw_ts']:
             return True, 'dtype %s' % (declared,), '%s: %s returned %s' % (kind, op, actual)
